@@ -727,11 +727,43 @@ func laneData(c *core.Ctx) gen.C13Data {
 	return ds
 }
 
+// extremeCounts: abundances at the limits of their types (a sequence read more than 2^32 times in a
+// sample, next to variants read a few times) and entries equal to 0 (a merged map can hold them).
+func extremeCounts(c *core.Ctx) gen.C13Data {
+	r := c.Rng
+	ds := gen.C13Data{Kind: "extreme-counts", Tag: "sample", Samples: []string{"s1", "s2"}}
+	root := gen.DNA(r, 40+r.Intn(40))
+	edit := func(s []byte) []byte {
+		t := append([]byte{}, s...)
+		p := r.Intn(len(t))
+		t[p] = gen.ACGT[(strings.IndexByte(gen.ACGT, t[p])+1+r.Intn(3))%4]
+		return t
+	}
+	add := func(id string, seq []byte, c1, c2 int) {
+		ds.Seqs = append(ds.Seqs, gen.C13Seq{Id: id, Seq: seq, Counts: map[string]int{"s1": c1, "s2": c2}})
+	}
+	big := []int{1<<32 + 4, 1 << 32, 1<<32 - 1, 1<<31 + 7, 3 << 32}[r.Intn(5)]
+	add("root", root, big, 1)
+	add("v_small", edit(root), 10, 0)
+	add("v_huge", edit(root), big-1, 1)
+	add("v_int32", edit(root), 1<<31-1, 2)
+	add("v_one", edit(root), 1, 1)
+	other := gen.DNA(r, 50)
+	add("o_root", other, 1, 7)
+	add("o_zero", edit(other), 0, 0)
+	ds.Star, ds.Depth, ds.Ties = 4, 1, true
+	return ds
+}
+
 func runExact(c *core.Ctx) {
 	ds := randomData(c, c.Pick(600, 2000))
 	if c.Idx%16 == 15 {
 		ds = laneData(c)
 		c.Count("lane_boundary_data_sets", 1)
+	}
+	if c.Idx%16 == 14 {
+		ds = extremeCounts(c)
+		c.Count("extreme_count_data_sets", 1)
 	}
 	cf := config{1, 1.0}
 	if !selfCheckRef(c, ds) {
@@ -856,7 +888,7 @@ func init() {
 		Level: "exploration",
 		Rule: "data sets = 1-6 samples x 20-2000 records: families of one-edit variants (stars on a root, chains, random attachment), 2-3-edit and unrelated records, repeated sequences, homopolymer runs, dense two-letter sets, counts wide / narrow (ties) / proportional to the model (ties and inversions), merged_<tag> maps or one <tag> attribute per record; contention sets = top <- 1-3 abundant variants <- 150-2500 one-error sons each; " +
 			"every data set is run through the package's own graph construction (VerifGraph, real worker pool) and through the obiclean command; oracle = brute-force graph (own one-edit test, self-checked against the Levenshtein DP) for edges / status / mutation / head flag / counts at distance 1, ratio 1, and equality of every written annotation with the 1-worker execution for workers 2..32 x repetitions x distance 1-3 x ratio {1,0.5,0.1,0.05}; race twin on the same executions. " +
-			"Added later: data sets with ambiguity codes (n, r, y: symbols like the others for the one-difference test). Sequences of 340 / 87000 bases whose count of one base is exactly 2^8 / 2^16, with one-difference variants on both sides of that count. " +
+			"Added later: data sets with ambiguity codes (n, r, y: symbols like the others for the one-difference test). Sequences of 340 / 87000 bases whose count of one base is exactly 2^8 / 2^16, with one-difference variants on both sides of that count. Abundances of 2^31 .. 3*2^32 in a sample, and entries equal to 0. " +
 			"distinct_nontrivial = distinct (sub-check, data-set kind, #samples, size class, ties planted, chain depth, star size class, attribute mode, distance, ratio, worker count) classes of executions whose graph has at least one edge",
 		Assume: []string{"sequences are non-empty, over a,c,g,t (one data set in ten or so also uses the codes n, r, y, compared as plain symbols), record identifiers are unique", "every record names at least one sample with a count >= 1",
 			"the mutation is written (father symbol)->(son symbol)@(1-based position of that symbol), '-' for the missing symbol, as the Edge fields From/To of the package say",
